@@ -1,5 +1,5 @@
 SPECIFICATION TraceSpec
-CONSTRAINT Mark
+CONSTRAINT MarkExit
 POSTCONDITION Accepted
 INVARIANT TreeOK
 CHECK_DEADLOCK FALSE
